@@ -36,6 +36,7 @@ Status
 -/
 import NrfProofs.MeshJoinK
 import NrfProofs.C17JoinExample
+import NrfProofs.C17Join2Comp
 import NrfProofs.PySetK
 import NrfProps.C16
 
@@ -563,6 +564,8 @@ retries / open_rx_pipe × 6`: a `NodeRadio` contract for `beginRadio`, C07's lis
 weaker); (c) the lookup leg — frames 5–6 are `nodeWrite_hop_plain` (NrfProofs/C13HopsLink.lean, receiver
 on the call stack allowed) plus `C17_lookup_master`; (d) the composition through `renewLoop` /
 `requestLoop` / `contactLoop` / `responseWait` / `lookupWait` with their literal fuels.
+(Update: (a) — with the clock clause — and the composition of frames 1–4 through `_request_address` with the
+literal fuels are proved in the last two sections of this file; (b), (c) and `renew_address`'s preamble remain.)
 -/
 
 
@@ -750,5 +753,342 @@ example : ∃ s1 s2 : NetState,
   refine ⟨s1, s2, h1, h2, ?_, ?_⟩
   · rw [h9]; rfl
   · rw [h8]
+
+end Nrf.Props.C17
+
+/-! ## the poll leg of a direct join (frames 1–2) and the 55 ms window of `_make_contact`
+
+The driver contracts (`L3Contracts`, `l3m_*`) say nothing about virtual time; the loop
+`while time.monotonic_ns() < timeout and len(responders) < MESH_MAX_POLL` of `_make_contact` ends by
+the clock alone.  The clock clause (NrfProofs/C17Join2Clock.lean): every SPI transaction ends at
+`max clock busyUntil + SPI_COST_NS` (`L3.spi_clock`, any world); `read()` with an empty RX FIFO is
+exactly **one** transaction (R_RX_PL_WID) and changes nothing else.  With it the window is closed by
+induction on the time left (`C17_contact_window_closed`), and the poll leg is proved end to end
+(`C17_leg_poll_closed`): `_make_contact(0)` returns `[0]`.  55 ms / 10 µs = 5500 idle polls ≪ the
+loop's fuel `F - 2 = 199998` (`window_fuel`: the literal is only ever compared, never unfolded).
+-/
+
+namespace Nrf.Props.C17
+open Nrf Nrf.Net Nrf.Spec Nrf.Proofs Nrf.Net.Join
+
+/-- **C17, the clock clause of `read()`.**  On a node radio (any role) whose RX FIFO is empty,
+    `read()` returns `None` after exactly one SPI transaction: the clock moves to
+    `max clock busyUntil[rid] + SPI_COST_NS` (the radio is waited for first — "jump" semantics; on an
+    idle radio that is `clock + SPI_COST_NS`), the transaction counter by one, the cached STATUS byte
+    becomes the chip's; radios, busy times, fault script and air log are untouched.  And in *every*
+    state `read()` costs at least one transaction: the clock never moves backwards. -/
+theorem C17_idle_read_clock (s : DrvState) (L : LinkCfg) (P : List Bytes) (rx ce : Bool) (aa : Nat) (hw : s.Wf)
+    (hN : NodeRadio L P rx ce aa s.d s.radio) (he : s.radio.rxFifo = []) :
+    exec (Rf24.read none) s =
+      (.ok none, { d := { s.d with status := s.radio.status },
+                   w := { s.w with clock := max s.w.clock (s.w.busyUntil.getD s.d.rid 0) + SPI_COST_NS,
+                                   spiCount := s.w.spiCount + 1 } }) ∧
+    (s.w.busyUntil.getD s.d.rid 0 ≤ s.w.clock →
+      (exec (Rf24.read none) s).2.w.clock = s.w.clock + SPI_COST_NS) ∧
+    ∀ t : DrvState, t.w.clock + SPI_COST_NS ≤ (exec (Rf24.read none) t).2.w.clock := by
+  have e := L3.idle_read s L P rx ce aa hw hN he
+  refine ⟨e, ?_, L3.read_clock_mono⟩
+  intro hb
+  rw [e]
+  show max s.w.clock (s.w.busyUntil.getD s.d.rid 0) + SPI_COST_NS = _
+  rw [Nat.max_eq_left hb]
+
+/-- the joiner's radio of `joinEx` is such a radio: one idle `read()` costs 10 µs there -/
+example : (exec (Rf24.read none) joinEx.drv).1 = .ok none ∧
+    (exec (Rf24.read none) joinEx.drv).2.w.clock = joinEx.w.clock + 10000 := by
+  have h := C17_idle_read_clock joinEx.drv Example.L PX true true 0x3E (show (1 : Nat) < 2 by decide) joinEx_radio1 rfl
+  refine ⟨by rw [h.1], ?_⟩
+  rw [h.2.1 (by decide)]
+  rfl
+
+/-- **C17, closed system: an idle `_net_update()`.**  A node that listens with an empty RX FIFO, has
+    no scripted arrivals, in a closed network where nobody off the call stack has data waiting
+    (`IdleSt`): `_net_update()` returns its start value; the state afterwards is `tick s` — the same
+    state one SPI transaction later — which is idle again. -/
+theorem C17_idle_net_update {L : LinkCfg} {P : List Bytes} {s : NetState} (h : IdleSt L P s) (f rv : Nat)
+    (hf : s.nodes.length < f) :
+    Nrf.Net.nexec (netUpdate (f + 2) rv) s = (.ok rv, tick s) ∧ IdleSt L P (tick s) ∧
+    (tick s).w.clock = max s.w.clock (s.w.busyUntil.getD s.node.rf.rid 0) + SPI_COST_NS ∧
+    (tick s).w.radios = s.w.radios ∧ (∀ i, ((tick s).nodeAt i).body = (s.nodeAt i).body) :=
+  ⟨netUpdate_idle h f rv hf, h.tick, tick_clock s, rfl, tick_body s⟩
+
+/-- **C17, closed system: the collection window of `_make_contact` closes.**  From an idle state with
+    fewer than four responders: the loop polls — `k ≤ n` idle `_net_update()`s — until the clock has
+    reached the deadline, and returns the responders unchanged; `n + 1` units of fuel suffice when `n`
+    SPI transactions lead past the deadline. -/
+theorem C17_contact_window_closed {L : LinkCfg} {P : List Bytes} (deadline : Nat) (slots : List (Option Nat))
+    (hslots : (pySetItems slots).length < 4) (n : Nat) (s : NetState) (h : IdleSt L P s)
+    (hlen : s.nodes.length + 2 < F) (hd : deadline ≤ s.w.clock + n * SPI_COST_NS) :
+    ∃ k, k ≤ n ∧ Nrf.Net.nexec (contactLoop deadline (n + 1) slots) s = (.ok slots, tickN k s) ∧
+      deadline ≤ (tickN k s).w.clock ∧ IdleSt L P (tickN k s) ∧ SameButClock s (tickN k s) := by
+  obtain ⟨k, hk, e, hdl⟩ := contactLoop_idle (L := L) (P := P) deadline slots hslots (F - 2)
+    (by have : F = 200000 := rfl
+        omega) n s h (by omega) hd
+  exact ⟨k, hk, e, hdl, IdleSt.tickN k h, SameButClock.tickN k s⟩
+
+/-- `joinEx` is idle; the 55 ms window costs at most 5500 polls there -/
+example : ∃ k, k ≤ 5500 ∧
+    (Nrf.Net.nexec (contactLoop 55000000 5501 (pySetAdd (List.replicate 8 none) 0)) joinEx).1 =
+      .ok (pySetAdd (List.replicate 8 none) 0) := by
+  have hi : IdleSt Example.L PX joinEx := by
+    refine ⟨by decide, rfl, ?_, show (1 : Nat) < 2 by decide, joinEx_radio1, rfl, rfl⟩
+    intro k hk hkc hka
+    have : k = 0 := by
+      have h1 : k < 2 := hk
+      have h2 : k ≠ 1 := hkc
+      omega
+    subst this; rfl
+  obtain ⟨k, hk, e, _⟩ := C17_contact_window_closed (L := Example.L) (P := PX) 55000000
+    (pySetAdd (List.replicate 8 none) 0) (by rw [slots1_items]; decide) 5500 joinEx hi (by decide) (by decide)
+  exact ⟨k, hk, by rw [e]⟩
+
+/-- **C17, closed system: the master answers a poll** (any number of nodes, all others on the call
+    stack).  The master — RF24Mesh, ID 0, address 0, multicast and children allowed, listening — finds
+    the NETWORK_POLL multicast of an unassigned node as the only payload in its RX FIFO.  `update()`
+    returns 0; `frame_buf` holds the answer (type 194, from 0, to 0o4444), transmitted —
+    unacknowledged — to `_pipe_address(0o4444, 0)`: every other radio has `receive`d it; nothing
+    else of the master's node object changed; it listens again, its RX FIFO empty. -/
+theorem C17_leg_master_poll_closed (f : Nat) (sm : NetState) (L : LinkCfg) (Pm : List Bytes) (p fid r : Nat)
+    (A pk pk' : Bytes)
+    (hcur : sm.cur < sm.nodes.length) (hclosed : sm.closed = true)
+    (hfuel : sm.nodes.length + 2 ≤ f) (hall : ∀ k, k < sm.nodes.length → k ≠ sm.cur → k ∈ sm.active)
+    (hWf : sm.drv.Wf)
+    (hN : NodeRadio L Pm true true 0x3E sm.node.rf sm.drv.radio)
+    (hrid : ∀ k, k < sm.nodes.length → k ≠ sm.cur → sm.ridAt k ≠ sm.ridAt sm.cur)
+    (harr : sm.node.arrivals = []) (hfifo : sm.drv.radio.rxFifo = [{ pipe := p, data := pk }]) (hp : p ≤ 5)
+    (hfaults : sm.w.faults = [])
+    (hpk : (pollFrame fid r).pack = .ok pk) (hr : r ≤ 255) (hfid : fid < 65536)
+    (hkind : sm.node.kind = .meshMaster) (hid : sm.node.nodeId = 0) (haddr0 : sm.node.a.addr = 0)
+    (hmc : sm.node.cfg.allowMulticast = true) (hpar : sm.node.parenthood = true)
+    (hdo : sm.node.doDhcp = false)
+    (hA : pipeAddress sm.node.cfg NETWORK_DEFAULT_ADDR 0 = .ok A) (hAlen : A.length = 5)
+    (hpk' : (pollReply fid r 0).pack = .ok pk') :
+    ∃ s' : NetState, Nrf.Net.nexec (nodeUpdate (f + 5)) sm = (.ok 0, s') ∧
+      s'.cur = sm.cur ∧ s'.active = sm.active ∧ s'.closed = true ∧ s'.nextId = sm.nextId ∧
+      s'.nodes.length = sm.nodes.length ∧
+      (∀ k, k ≠ sm.cur → s'.nodeAt k = sm.nodeAt k) ∧
+      s'.node.body = { sm.node.body with frameBuf := pollReply fid r 0 } ∧
+      s'.node.clock = sm.node.clock ∧
+      s'.node.rf.rid = sm.node.rf.rid ∧ s'.w.radios.length = sm.w.radios.length ∧ s'.w.faults = [] ∧
+      NodeRadio L Pm true true 0x3E s'.node.rf s'.drv.radio ∧ s'.drv.radio.rxFifo = [] ∧
+      s'.drv.radio.lastRx = sm.drv.radio.lastRx ∧
+      (∃ pid, ∀ q, q ≠ sm.ridAt sm.cur →
+        s'.w.radio q = ((sm.w.radio q).receive (unicastPacket L A pk' pid)).1) :=
+  master_poll f sm L Pm p fid r A pk pk' hcur hclosed hfuel hall hWf hN hrid harr hfifo hp hfaults hpk hr hfid
+    hkind hid haddr0 hmc hpar hdo hA hAlen hpk'
+
+/-- **C17, closed system: the poll leg of a join, end to end** (frames 1 and 2; two nodes, loss-free;
+    the model's own fuel `F`).  The joiner `x` (unassigned, on the call stack, listening; `frame_buf`
+    with id `fid` and `reserved = r`) and the master `m` (RF24Mesh, ID 0, address 0, multicast and
+    children allowed, `_do_dhcp` clear, listening, off the call stack); both RX FIFOs empty, neither
+    radio having just received the very packet about to be sent.  Then **`_make_contact(0)` returns
+    `[0]`**: the multicast reaches the master's pipe 0; within the joiner's next `read()` the master's
+    `update()` answers to the joiner's pipe 0; the joiner's `_net_update()` returns 194 and address 0
+    enters the set of responders; every further `_net_update()` of the 55 ms window is idle (one SPI
+    transaction) and the loop ends by the clock within its fuel.  Afterwards both `frame_buf`s hold
+    the answer and nothing else of either node object changed (no header id consumed); both nodes
+    listen on their own addresses with empty RX FIFOs; the fault script is still empty; each radio
+    remembers the one packet it received (`lastRx`). -/
+theorem C17_leg_poll_closed (s : NetState) (L : LinkCfg) (Pm Px : List Bytes) (m x fid r : Nat)
+    (Am Ax pk pk' : Bytes)
+    (hlen : s.nodes.length = 2) (hm : m < 2) (hx : x < 2) (hmx : m ≠ x)
+    (hcur : s.cur = x) (hact : s.active = [x]) (hclosed : s.closed = true) (hfaults : s.w.faults = [])
+    (hridm : s.ridAt m < s.w.radios.length) (hridx : s.ridAt x < s.w.radios.length)
+    (hridne : s.ridAt m ≠ s.ridAt x)
+    (hNm : NodeRadio L Pm true true 0x3E (s.nodeAt m).rf (s.radioAt m))
+    (hNx : NodeRadio L Px true true 0x3E (s.nodeAt x).rf (s.radioAt x))
+    (hfm : (s.radioAt m).rxFifo = []) (hfx : (s.radioAt x).rxFifo = [])
+    (hdupm : ∀ pid, (s.radioAt m).lastRx ≠ some { pid := pid, addr := Am, data := pk })
+    (hdupx : ∀ pid, (s.radioAt x).lastRx ≠ some { pid := pid, addr := Ax, data := pk' })
+    (harrm : (s.nodeAt m).arrivals = []) (harrx : (s.nodeAt x).arrivals = [])
+    (hAm : Pm[0]? = some Am) (hAx : Px[0]? = some Ax)
+    (hxfid : (s.nodeAt x).frameBuf.header.frameId = fid) (hxres : (s.nodeAt x).frameBuf.header.reserved = r)
+    (hxaddr : (s.nodeAt x).a.addr = NETWORK_DEFAULT_ADDR)
+    (hxret : (s.nodeAt x).retSysMsg = true) (hxcfg : pipeAddress (s.nodeAt x).cfg 0 0 = .ok Am)
+    (hkind : (s.nodeAt m).kind = .meshMaster) (hid : (s.nodeAt m).nodeId = 0) (hmaddr : (s.nodeAt m).a.addr = 0)
+    (hmmc : (s.nodeAt m).cfg.allowMulticast = true) (hmpar : (s.nodeAt m).parenthood = true)
+    (hdo : (s.nodeAt m).doDhcp = false)
+    (hmcfg : pipeAddress (s.nodeAt m).cfg NETWORK_DEFAULT_ADDR 0 = .ok Ax)
+    (hr : r ≤ 255) (hfid : fid < 65536)
+    (hpk : (pollFrame fid r).pack = .ok pk) (hpk' : (pollReply fid r 0).pack = .ok pk') :
+    ∃ (s' : NetState) (pid1 pid2 : Nat),
+      Nrf.Net.nexec (makeContact 0) s = (.ok [0], s') ∧
+      s'.cur = x ∧ s'.active = [x] ∧ s'.nodes.length = 2 ∧ s'.closed = true ∧ s'.w.faults = [] ∧
+      s'.nextId = s.nextId ∧ s'.w.radios.length = s.w.radios.length ∧
+      (s'.nodeAt x).body = { (s.nodeAt x).body with frameBuf := pollReply fid r 0 } ∧
+      (s'.nodeAt m).body = { (s.nodeAt m).body with frameBuf := pollReply fid r 0 } ∧
+      NodeRadio L Pm true true 0x3E (s'.nodeAt m).rf (s'.radioAt m) ∧
+      NodeRadio L Px true true 0x3E (s'.nodeAt x).rf (s'.radioAt x) ∧
+      (s'.radioAt m).rxFifo = [] ∧ (s'.radioAt x).rxFifo = [] ∧
+      s'.ridAt m = s.ridAt m ∧ s'.ridAt x = s.ridAt x ∧
+      (s'.radioAt m).lastRx = some { pid := pid1, addr := Am, data := pk } ∧
+      (s'.radioAt x).lastRx = some { pid := pid2, addr := Ax, data := pk' } :=
+  leg_poll s L Pm Px m x fid r Am Ax pk pk' hlen hm hx hmx hcur hact hclosed hfaults hridm hridx hridne hNm hNx
+    hfm hfx hdupm hdupx harrm harrx hAm hAx hxfid hxres hxaddr hxret hxcfg hkind hid hmaddr hmmc hmpar hdo hmcfg
+    hr hfid hpk hpk'
+
+/-- the hypotheses are satisfiable: in `joinEx` (master on radio 0, joiner ID 7 on radio 1)
+    `_make_contact(0)` returns `[0]` — as the real code does on
+    `net 2 1 new m master 0 0 ; new x mesh 1 7 ; x renew 1500` (frames 1 and 2 of the six) -/
+example : ∃ s' : NetState, Nrf.Net.nexec (makeContact 0) joinEx = (.ok [0], s') ∧
+    (s'.nodeAt 1).body.frameBuf = pollReply 3 7 0 ∧ (s'.radioAt 0).rxFifo = [] ∧ (s'.radioAt 1).rxFifo = [] := by
+  obtain ⟨pk, hpk⟩ := pack_ok (pollFrame 3 7) NETWORK_POLL rfl
+  obtain ⟨pk', hpk'⟩ := pack_ok (pollReply 3 7 0) NETWORK_POLL rfl
+  obtain ⟨s', _, _, e, _, _, _, _, _, _, _, bx, _, _, _, fm, fx, _⟩ := C17_leg_poll_closed joinEx Example.L Example.P0 PX
+    0 1 3 7 [195, 204, 204, 204, 204] [204, 62, 204, 204, 204] pk pk' rfl (by decide) (by decide) (by decide) rfl rfl
+    rfl rfl (by decide) (by decide) (by decide) joinEx_radio0 joinEx_radio1 rfl rfl
+    (by intro pid; rw [show (joinEx.radioAt 0).lastRx = none from rfl]; intro h; cases h)
+    (by intro pid; rw [show (joinEx.radioAt 1).lastRx = none from rfl]; intro h; cases h)
+    rfl rfl rfl rfl rfl rfl rfl rfl pa0 rfl rfl rfl rfl rfl rfl pa4444 (by decide) (by decide) hpk hpk'
+  exact ⟨s', e, by rw [bx], fm, fx⟩
+
+end Nrf.Props.C17
+
+/-! ## frames 1–4 composed, and `_request_address(0)` with the two open legs as hypotheses
+
+Full statement still open as one theorem (`C17_join_direct_closed`): `meshRenew timeout` returns `some a`
+with the master's table `Mesh.setAddress t i a` and the joiner's address attributes `beginAddr a`, both
+listening.  No lower bound on `timeout` is needed: `renew_address` tries `_request_address(0)` before it
+looks at the clock, and in the loss-free two-node system that first attempt succeeds.  Proved below:
+frames 1–4 with the model's literal fuels (`C17_join_frames_1_4_closed`), and the control flow of
+`_request_address(0)` down to `return True` given the two remaining legs as hypotheses about the model
+(`C17_join_direct_closed_partial`): (b) `_begin(a)` on the radio from the state `AfterRequest` — total,
+address attribute `a`, ID kept (C07Begin's `n_begin` / `C07_begin` give totality and the register
+effect; what is missing is re-establishing `NodeRadio` for the new six addresses); (c) the acknowledged
+double-check `lookup_node_id(a)` (frames 5–6: `nodeWrite_hop_plain` + `C17_lookup_master` +
+`read_nested2c` + `netUpdate_sys`) returning the ID.  Also open: `renew_address`'s preamble
+(`available()` on the idle radio — one NOP transaction, same argument as `C17_idle_read_clock`) and the
+first iteration of `renewLoop`.
+-/
+
+namespace Nrf.Props.C17
+open Nrf Nrf.Net Nrf.Spec Nrf.Proofs Nrf.Net.Join
+
+/-- **C17, closed system: frames 1–4 of a direct join, composed** (two nodes, loss-free, the model's
+    own fuel `F` in every loop).  From the state before `_request_address(0)` — joiner `x` (ID `i`,
+    unassigned, listening), master `m` (table `t`, `_do_dhcp` clear, listening), both RX FIFOs empty,
+    `_dhcp`'s candidate loop finding `a` —: `_make_contact(0)` returns `[0]`; then, with the address
+    request in `frame_buf`, `_write(0, TX_PHYSICAL)` returns `True` and the next `_net_update()` returns
+    **128**; afterwards (`AfterRequest`) the joiner's `frame_buf` is the response offering `a`, **the
+    master's table is `Mesh.setAddress t i a`** with `_do_dhcp` clear, nothing else of either node
+    object changed, both nodes listen with empty RX FIFOs, the fault script is empty.  The poll leg's
+    final state satisfies the request leg's preconditions because the four packets differ pairwise
+    where it matters (`pack_ne`): neither radio takes the next packet for a repetition of the last. -/
+theorem C17_join_frames_1_4_closed (s : NetState) (L : LinkCfg) (Pm Px : List Bytes) (m x fid r i a : Nat)
+    (Am Ax pk pk' pq pq' : Bytes)
+    (hlen : s.nodes.length = 2) (hm : m < 2) (hx : x < 2) (hmx : m ≠ x)
+    (hcur : s.cur = x) (hact : s.active = [x]) (hclosed : s.closed = true) (hfaults : s.w.faults = [])
+    (hridm : s.ridAt m < s.w.radios.length) (hridx : s.ridAt x < s.w.radios.length)
+    (hridne : s.ridAt m ≠ s.ridAt x)
+    (hNm : NodeRadio L Pm true true 0x3E (s.nodeAt m).rf (s.radioAt m))
+    (hNx : NodeRadio L Px true true 0x3E (s.nodeAt x).rf (s.radioAt x))
+    (hfm : (s.radioAt m).rxFifo = []) (hfx : (s.radioAt x).rxFifo = [])
+    (hdupm : ∀ pid, (s.radioAt m).lastRx ≠ some { pid := pid, addr := Am, data := pk })
+    (hdupx : ∀ pid, (s.radioAt x).lastRx ≠ some { pid := pid, addr := Ax, data := pk' })
+    (harrm : (s.nodeAt m).arrivals = []) (harrx : (s.nodeAt x).arrivals = [])
+    (hAm : Pm[0]? = some Am) (hAx : Px[0]? = some Ax)
+    (hxfid : (s.nodeAt x).frameBuf.header.frameId = fid) (hxres : (s.nodeAt x).frameBuf.header.reserved = r)
+    (hxid : (s.nodeAt x).nodeId = i)
+    (hxaddr : (s.nodeAt x).a.addr = NETWORK_DEFAULT_ADDR)
+    (hxret : (s.nodeAt x).retSysMsg = true) (hxcfg : pipeAddress (s.nodeAt x).cfg 0 0 = .ok Am)
+    (hkind : (s.nodeAt m).kind = .meshMaster) (hid : (s.nodeAt m).nodeId = 0) (hmaddr : (s.nodeAt m).a.addr = 0)
+    (hmret : (s.nodeAt m).retSysMsg = true)
+    (hmmc : (s.nodeAt m).cfg.allowMulticast = true) (hmpar : (s.nodeAt m).parenthood = true)
+    (hdo : (s.nodeAt m).doDhcp = false)
+    (hmcfg : pipeAddress (s.nodeAt m).cfg NETWORK_DEFAULT_ADDR 0 = .ok Ax)
+    (hfind : dhcpFind (s.nodeAt m).dhcp i 0 0 (Mesh.MESH_MAX_CHILDREN + 1) = some a) (ha : a < 65536)
+    (hr : r ≤ 255) (hfid : fid < 65536) (hi0 : i ≠ 0) (hi : i ≤ 255)
+    (hpk : (pollFrame fid r).pack = .ok pk) (hpk' : (pollReply fid r 0).pack = .ok pk')
+    (hpq : (reqFrame fid i 0).pack = .ok pq) (hpq' : (respFrame fid i a).pack = .ok pq') :
+    ∃ s2 sW s3 : NetState,
+      Nrf.Net.nexec (makeContact 0) s = (.ok [0], s2) ∧ s2.cur = x ∧ s2.nodes.length = 2 ∧
+      (s2.nodeAt x).body = { (s.nodeAt x).body with frameBuf := pollReply fid r 0 } ∧
+      Nrf.Net.nexec (nodeWrite F 0 TX_PHYSICAL) (s2.withFrame (reqFrame fid i 0)) = (.ok true, sW) ∧
+      Nrf.Net.nexec (netUpdate F 0) sW = (.ok MESH_ADDR_RESPONSE, s3) ∧
+      AfterRequest s L Pm Px m x fid i a s3 :=
+  frames_1_4 s L Pm Px m x fid r i a Am Ax pk pk' pq pq'
+    hlen hm hx hmx hcur hact hclosed hfaults hridm hridx hridne hNm hNx hfm hfx hdupm hdupx harrm harrx hAm hAx
+    hxfid hxres hxid hxaddr hxret hxcfg hkind hid hmaddr hmret hmmc hmpar hdo hmcfg hfind ha hr hfid hi0 hi
+    hpk hpk' hpq hpq'
+
+/-- the hypotheses are satisfiable: `joinEx` (master with an empty table, joiner ID 7): frames 1–4
+    run and the master leases 0o5 — the real code: `net 2 1 new m master 0 0 ; new x mesh 1 7 ; x renew 1500` -/
+example : ∃ s2 s3 : NetState, Nrf.Net.nexec (makeContact 0) joinEx = (.ok [0], s2) ∧
+    (s3.nodeAt 0).body.dhcp = [(7, 5)] ∧ (s3.nodeAt 1).body.frameBuf = respFrame 3 7 5 := by
+  obtain ⟨pk, hpk⟩ := pack_ok (pollFrame 3 7) NETWORK_POLL rfl
+  obtain ⟨pk', hpk'⟩ := pack_ok (pollReply 3 7 0) NETWORK_POLL rfl
+  obtain ⟨pq, hpq⟩ := pack_ok (reqFrame 3 7 0) MESH_ADDR_REQUEST rfl
+  obtain ⟨pq', hpq'⟩ := pack_ok (respFrame 3 7 5) MESH_ADDR_RESPONSE rfl
+  obtain ⟨s2, _, s3, e, _, _, _, _, _, h⟩ := C17_join_frames_1_4_closed joinEx Example.L Example.P0 PX
+    0 1 3 7 7 5 [195, 204, 204, 204, 204] [204, 62, 204, 204, 204] pk pk' pq pq' rfl (by decide) (by decide) (by decide)
+    rfl rfl rfl rfl (by decide) (by decide) (by decide) joinEx_radio0 joinEx_radio1 rfl rfl
+    (by intro pid; rw [show (joinEx.radioAt 0).lastRx = none from rfl]; intro h; cases h)
+    (by intro pid; rw [show (joinEx.radioAt 1).lastRx = none from rfl]; intro h; cases h)
+    rfl rfl rfl rfl rfl rfl rfl rfl rfl pa0 rfl rfl rfl rfl rfl rfl rfl pa4444 (by decide) (by decide) (by decide)
+    (by decide) (by decide) (by decide) hpk hpk' hpq hpq'
+  refine ⟨s2, s3, e, ?_, ?_⟩
+  · rw [h.master]; rfl
+  · rw [h.joiner]
+
+/-- **C17, closed system: `_request_address(0)` of a direct join, partial** — frames 1–4 proved
+    (`C17_join_frames_1_4_closed`), the control flow of `_request_address` / `requestLoop` /
+    `responseWait` with their literal fuels proved (the response is accepted: type 128, own ID, the
+    offered address is below contact 0), and **exactly the two unproved legs as hypotheses about the
+    model**: `Hb` — `_begin(a)` from any state `AfterRequest` ends normally with address attribute
+    `a`, the ID kept, establishing `P4`; `Hc` — the double-check `lookup_node_id(a)` from any state
+    satisfying `P4` returns the ID, establishing `P5`.  Then `_request_address(0)` returns `True` in a
+    state satisfying `P5` (so `renew_address` returns the address without looking at its timeout). -/
+theorem C17_join_direct_closed_partial (s : NetState) (L : LinkCfg) (Pm Px : List Bytes) (m x fid r i a : Nat)
+    (Am Ax pk pk' pq pq' : Bytes) (P4 P5 : NetState → Prop)
+    (hlen : s.nodes.length = 2) (hm : m < 2) (hx : x < 2) (hmx : m ≠ x)
+    (hcur : s.cur = x) (hact : s.active = [x]) (hclosed : s.closed = true) (hfaults : s.w.faults = [])
+    (hridm : s.ridAt m < s.w.radios.length) (hridx : s.ridAt x < s.w.radios.length)
+    (hridne : s.ridAt m ≠ s.ridAt x)
+    (hNm : NodeRadio L Pm true true 0x3E (s.nodeAt m).rf (s.radioAt m))
+    (hNx : NodeRadio L Px true true 0x3E (s.nodeAt x).rf (s.radioAt x))
+    (hfm : (s.radioAt m).rxFifo = []) (hfx : (s.radioAt x).rxFifo = [])
+    (hdupm : ∀ pid, (s.radioAt m).lastRx ≠ some { pid := pid, addr := Am, data := pk })
+    (hdupx : ∀ pid, (s.radioAt x).lastRx ≠ some { pid := pid, addr := Ax, data := pk' })
+    (harrm : (s.nodeAt m).arrivals = []) (harrx : (s.nodeAt x).arrivals = [])
+    (hAm : Pm[0]? = some Am) (hAx : Px[0]? = some Ax)
+    (hxfid : (s.nodeAt x).frameBuf.header.frameId = fid) (hxres : (s.nodeAt x).frameBuf.header.reserved = r)
+    (hxid : (s.nodeAt x).nodeId = i)
+    (hxaddr : (s.nodeAt x).a.addr = NETWORK_DEFAULT_ADDR)
+    (hxret : (s.nodeAt x).retSysMsg = true) (hxcfg : pipeAddress (s.nodeAt x).cfg 0 0 = .ok Am)
+    (hkind : (s.nodeAt m).kind = .meshMaster) (hid : (s.nodeAt m).nodeId = 0) (hmaddr : (s.nodeAt m).a.addr = 0)
+    (hmret : (s.nodeAt m).retSysMsg = true)
+    (hmmc : (s.nodeAt m).cfg.allowMulticast = true) (hmpar : (s.nodeAt m).parenthood = true)
+    (hdo : (s.nodeAt m).doDhcp = false)
+    (hmcfg : pipeAddress (s.nodeAt m).cfg NETWORK_DEFAULT_ADDR 0 = .ok Ax)
+    (hfind : dhcpFind (s.nodeAt m).dhcp i 0 0 (Mesh.MESH_MAX_CHILDREN + 1) = some a) (ha : a < 65536)
+    (hr : r ≤ 255) (hfid : fid < 65536) (hi0 : i ≠ 0) (hi : i ≤ 255)
+    (hpk : (pollFrame fid r).pack = .ok pk) (hpk' : (pollReply fid r 0).pack = .ok pk')
+    (hpq : (reqFrame fid i 0).pack = .ok pq) (hpq' : (respFrame fid i a).pack = .ok pq')
+    (Hb : ∀ s3, AfterRequest s L Pm Px m x fid i a s3 →
+      ∃ s4, Nrf.Net.nexec (begin a) s3 = (.ok (), s4) ∧ s4.node.a.addr = a ∧ s4.node.nodeId = i ∧ P4 s4)
+    (Hc : ∀ s4, P4 s4 →
+      ∃ s5, Nrf.Net.nexec (meshLookupNodeId (some (a : Int))) s4 = (.ok (i : Int), s5) ∧ P5 s5) :
+    ∃ s5, Nrf.Net.nexec (requestAddress 0) s = (.ok true, s5) ∧ P5 s5 :=
+  request_address_partial s L Pm Px m x fid r i a Am Ax pk pk' pq pq' P4 P5
+    hlen hm hx hmx hcur hact hclosed hfaults hridm hridx hridne hNm hNx hfm hfx hdupm hdupx harrm harrx hAm hAx
+    hxfid hxres hxid hxaddr hxret hxcfg hkind hid hmaddr hmret hmmc hmpar hdo hmcfg hfind ha hr hfid hi0 hi
+    hpk hpk' hpq hpq' Hb Hc
+
+/-- the hypotheses other than the two open legs are those of `C17_join_frames_1_4_closed` (satisfied by
+    `joinEx`, above); the premise of `Hb` is reached there (`AfterRequest joinEx …`), and the real
+    code / the model's driver run show both legs succeed on it (`x renew 1500` → 5, six air records) -/
+example : ∃ s3 : NetState, AfterRequest joinEx Example.L Example.P0 PX 0 1 3 7 5 s3 := by
+  obtain ⟨pk, hpk⟩ := pack_ok (pollFrame 3 7) NETWORK_POLL rfl
+  obtain ⟨pk', hpk'⟩ := pack_ok (pollReply 3 7 0) NETWORK_POLL rfl
+  obtain ⟨pq, hpq⟩ := pack_ok (reqFrame 3 7 0) MESH_ADDR_REQUEST rfl
+  obtain ⟨pq', hpq'⟩ := pack_ok (respFrame 3 7 5) MESH_ADDR_RESPONSE rfl
+  obtain ⟨_, _, s3, _, _, _, _, _, _, h⟩ := C17_join_frames_1_4_closed joinEx Example.L Example.P0 PX
+    0 1 3 7 7 5 [195, 204, 204, 204, 204] [204, 62, 204, 204, 204] pk pk' pq pq' rfl (by decide) (by decide) (by decide)
+    rfl rfl rfl rfl (by decide) (by decide) (by decide) joinEx_radio0 joinEx_radio1 rfl rfl
+    (by intro pid; rw [show (joinEx.radioAt 0).lastRx = none from rfl]; intro h; cases h)
+    (by intro pid; rw [show (joinEx.radioAt 1).lastRx = none from rfl]; intro h; cases h)
+    rfl rfl rfl rfl rfl rfl rfl rfl rfl pa0 rfl rfl rfl rfl rfl rfl rfl pa4444 (by decide) (by decide) (by decide)
+    (by decide) (by decide) (by decide) hpk hpk' hpq hpq'
+  exact ⟨s3, h⟩
 
 end Nrf.Props.C17
